@@ -971,7 +971,7 @@ var qcVariants = []string{"QC", "QCPN", "QCCustom", "QCCombo", "Async", "AsyncPN
 // RunGated is the engine behind C01 and C02.
 func RunGated(e *Env) {
 	e.R.Rule = "seeded gated scenarios: variant x cluster size x per-node script (reply/error/silent/skip) x gate release order x quorum function x context-end position; " +
-		"C02 also: storms (8 goroutines of calls needing every node while another goroutine keeps breaking the nodes' streams from the sender side with messages over the send limit): Incomplete only when the nodes shown to the quorum function plus the nodes named in the error cover the configuration, errors + replies = n; " +
+		"C01 also: two managers calling the same servers in lock step (equal message ids in flight on both connections of a server): every reply shown to a quorum function carries its own call's token; C02 also: storms (8 goroutines of calls needing every node while another goroutine keeps breaking the nodes' streams from the sender side with messages over the send limit): Incomplete only when the nodes shown to the quorum function plus the nodes named in the error cover the configuration, errors + replies = n; " +
 		"distinct = (variant, n, scripts, arrival order observed by the QF, QF, ctx-end position); non-trivial = n>=2 and (>=2 script kinds or permuted order or ctx end)"
 	e.R.Assume("replies are stamped by puppet handlers with (call token, node id, request digest); the oracle trusts those stamps and the QF invocation log recorded inside the harness QuorumSpec")
 	e.R.Assume("an error's arrival at the client is not observable through the API; the oracle accepts every error count consistent with the errors released so far")
@@ -1055,6 +1055,88 @@ func RunGated(e *Env) {
 	if e.Prop == "C02" {
 		RunStorm(e, "C02")
 	}
+	if e.Prop == "C01" {
+		for rep := 0; rep < e.Pick(4, 40); rep++ {
+			if e.Of > 1 && rep%e.Of != e.Batch {
+				continue
+			}
+			runTwoManagers(e, rep)
+		}
+	}
+}
+
+// runTwoManagers: two managers (two client connections per server, both numbering their messages from 1) call the same
+// servers in lock step, so that equal message ids are in flight on both connections of a server at the same time. Every reply
+// shown to a quorum function carries the token of that call's own request.
+func runTwoManagers(e *Env, rep int) {
+	R := e.R
+	n := 2 + rep%3
+	cl, err := h.NewCluster(h.Options{N: n, Block: true, DialTimeout: 2 * time.Second})
+	if err != nil {
+		R.Inconc("cluster: " + err.Error())
+		return
+	}
+	defer cl.Close()
+	cl.SetBehaviour(func(c *h.HCall) (*puppet.Rep, error) {
+		if c.Req.GetSeq()%3 == 0 {
+			c.Ctx.Release()
+		}
+		return c.Rep(0), nil
+	})
+	qsB := &h.QSpec{}
+	mb := puppet.NewManager(cl.MgrOptions()...)
+	defer func() { go mb.Close() }()
+	cfgB, err := mb.NewConfiguration(gorums.WithNodeMap(cl.NodeMap()), qsB)
+	if err != nil {
+		R.Inconc("second manager: " + err.Error())
+		return
+	}
+	type side struct {
+		cfg *puppet.Configuration
+		qs  *h.QSpec
+	}
+	sides := []side{{cl.Cfg, cl.QS}, {cfgB, qsB}}
+	var foreign atomic.Int64
+	var first atomic.Pointer[string]
+	rounds := e.Pick(150, 600)
+	for r := 0; r < rounds && foreign.Load() == 0; r++ {
+		var start, done sync.WaitGroup
+		start.Add(1)
+		for si, sd := range sides {
+			done.Add(1)
+			go func(si int, sd side) {
+				defer done.Done()
+				tok := h.NewToken()
+				req := &puppet.Req{Call: tok, Seq: uint64(r), Kind: 1}
+				sd.qs.Register(&h.CallMon{Token: tok, Orig: req, Decide: func(inv *h.Inv) (bool, int) {
+					for id, rp := range inv.Reps {
+						if rp.Call != tok || rp.Node != id {
+							foreign.Add(1)
+							msg := fmt.Sprintf("manager %d, round %d: the reply set of call %d holds under node %d a reply to call %d produced by node %d", si, r, tok, id, rp.Call, rp.Node)
+							first.CompareAndSwap(nil, &msg)
+						}
+					}
+					return len(inv.Keys) >= n, len(inv.Keys)
+				}})
+				defer sd.qs.Unregister(tok)
+				ctx, cancel := context.WithTimeout(context.Background(), 3*time.Second)
+				defer cancel()
+				start.Wait()
+				if r%2 == 0 {
+					CallQC(sd.cfg, "QC", ctx, req, nil)
+				} else {
+					StartAsync(sd.cfg, "Async", ctx, req, nil).Get()
+				}
+			}(si, sd)
+		}
+		start.Done()
+		done.Wait()
+	}
+	if foreign.Load() > 0 {
+		R.Violate("qf-foreign-reply", "two managers on the same servers: "+*first.Load(), map[string]any{"n": n, "foreign_replies": foreign.Load()})
+	}
+	R.Eval(fmt.Sprintf("two-managers-in-lock-step|n=%d|%d", n, rep), true)
+	R.Count("two_manager_rounds(equal message ids in flight on both connections)", int64(rounds))
 }
 
 // runResetWhileQueued: one node's connection is reset while its request is still queued (sender held at a hook); the request
